@@ -37,12 +37,16 @@ embedded as real = lattice / 2 so that accepted states are not integral.
 Chains started outside the support, boundary uniforms (specs/MHOutside.tla EXTENDS MHKernel): the initial point has log-density
 -inf; a finite proposal is accepted whatever the uniform (Metropolis-Hastings ratio +inf), a NaN / -inf proposal never (from a
 finite and from a -inf state; the chain stays put and reports no acceptance); decisions with the uniform exactly 0.
+Extreme magnitudes (specs/MHMagnitude.tla; harness/cuqiverif/mhmag_real.py): one transition whose log target ratio a, log proposal
+ratio b (Hastings term of the Langevin kernel) and cached level are exact quantities 0, +-1 .. +-10^4, +-~1e300 in all sign
+combinations (exp(a), exp(b) overflow / underflow, only a + b decides), decided with the uniforms 0, 1e-300, exp(a+b)(1 -/+ 1e-6),
+1/2, 1 - 1e-6: the decision must be the one of log alpha = a + b computed in the log domain; a NaN decision variable is never an accept.
 Code -> spec: real runs of the Metropolis-type samplers under the recorder log the boolean facets cache_ok /
 finite_ok / moved / acc of every transition; TLC validates them against TraceMHKernel.tla.
 """
 META = {
     "claimed": True,
-    "engine": "MHKernel.tla + CWSweep.tla + MHReconf.tla + MHOutside.tla",
+    "engine": "MHKernel.tla + CWSweep.tla + MHReconf.tla + MHOutside.tla + MHMagnitude.tla",
     "text": ("TLC checks on every reachable state of the bounded lattice model (d=1: 5 points, d=2: 3x3; quadratic, asymmetric "
              "and NaN/-inf-holed target tables; RW, CW, PCN, MALA x both interfaces; scalar, per-component and re-tuned scales; "
              "state reload) that the log-ratio computed from the caches is the Metropolis-Hastings log-ratio of the proposal "
@@ -83,6 +87,15 @@ META = {
              "(generic | exactly 0): RatioIsMHO (ratio +inf from zero density), NeverAcceptsNonFinite, MovesOnlyToFinite, StaysInside, "
              "EscapesWithProbabilityOne (deviation InfGuardDropped refuted), every behaviour replayed on all kernels of both "
              "interfaces (step / single_update and the public loops); the uniforms scripted for a non-finite proposal include 0; "
+             "MHMagnitude.tla gives the decision a magnitude dimension: configuration = kernel x interface x cached level (0, -10^4) x "
+             "log target ratio a (0, +-1, +-50, +-700, +-800, +-10^4, +-4U; U = 2^997 ~ 1.3e300) x log proposal ratio b of the Langevin "
+             "kernel (0, +-2, +-50, +-722, +-800, +-10082, +-U: half squares, realised exactly), exact arithmetic on h*U + n, uniform "
+             "classes zero / tiny / below / above / mid / near1; invariants DecisionIsMH (the decision of min(0, fl(a + b)) is the "
+             "decision of the exact a + b for every uniform), NaNDecisionNeverAccepts, DecisionVariableFinite, CacheCoherent, "
+             "RejectKeepsState; deviations ProductOfExponentials (alpha = exp(a) exp(b): inf * 0 = NaN, min(1, NaN) = 1) and "
+             "RatioOfDensities (exp(lp(y)) / exp(lp(x)): 0 / 0) are refuted on DecisionIsMH and on NaNDecisionNeverAccepts; every "
+             "emitted case is one real transition (two-point table target, drift table, scripted noise and uniform) on all "
+             "kernels of both interfaces: proposal, decision, next point, cached values; "
              "recorded real runs are validated by TLC against TraceMHKernel."),
     "note": ("Targets are tables on a finite lattice (the ratio identities do not depend on the table values); a computed ratio "
              "must deviate by more than 1e-6 relative to flip a scripted decision. Legacy CWMH is driven with a copy of x "
@@ -102,8 +115,10 @@ META = {
              "truthful; exceptions under a non-default layout and mismatches under a layout no docstring describes are "
              "observations; what a sampler does with a proposal object whose assignment raised is an observation. A proposal "
              "with log-density +inf (acceptance probability 1 by the formula, not named by the property) is observed only; "
-             "chains are not started at a NaN point."),
-    "technique": "TLA+ specs (MHKernel, CWSweep, MHReconf, MHOutside) model-checked with TLC; TLC-generated behaviours replayed into the samplers with scripted randomness; recorded traces validated by TLC",
+             "chains are not started at a NaN point. Extreme magnitudes: the decision for the uniform exactly 0 is asserted only "
+             "when exp(a + b) is a normal double or a + b >= 0 (u <= exp(r) vs u < exp(r) differ on a set of measure zero when "
+             "exp(r) underflows); thresholds exp(r)(1 -/+ 1e-6) are scripted only for -708 < r < 0."),
+    "technique": "TLA+ specs (MHKernel, CWSweep, MHReconf, MHOutside, MHMagnitude) model-checked with TLC; TLC-generated behaviours replayed into the samplers with scripted randomness; recorded traces validated by TLC",
 }
 
 import concurrent.futures, hashlib, json, os, random, time, warnings
@@ -137,6 +152,13 @@ RECONF_DEVIATIONS = (  # MHReconf.tla: cfg, invariant that must be violated
 
 OUTSIDE_DEVIATIONS = (  # MHOutside.tla: cfg, action property that must be violated
     ("MHOutside.InfGuardDropped.deviation.cfg", "NeverAcceptsNonFinite"),
+)
+
+MAGNITUDE_DEVIATIONS = (  # MHMagnitude.tla: cfg, invariant that must be violated
+    ("MHMagnitude.ProductOfExponentials.deviation.cfg", "DecisionIsMH"),
+    ("MHMagnitude.ProductOfExponentials_nan.deviation.cfg", "NaNDecisionNeverAccepts"),
+    ("MHMagnitude.RatioOfDensities.deviation.cfg", "DecisionIsMH"),
+    ("MHMagnitude.RatioOfDensities_nan.deviation.cfg", "NaNDecisionNeverAccepts"),
 )
 
 _SERIAL = [0]
@@ -1172,6 +1194,83 @@ def outside_facet(ctx, res):
     ctx.observe("named_deviations_outside", {cfg: inv for cfg, inv in OUTSIDE_DEVIATIONS})
     return len(behs), len(chosen)
 
+# ----------------------------------------------------------------------------------------------------------------
+# spec -> code : the decision at extreme magnitudes (MHMagnitude.tla)
+# ----------------------------------------------------------------------------------------------------------------
+def magnitude_facet(ctx, res):
+    """replay of the cases of MHMagnitude.<tier>.cfg: one transition whose log target ratio a, log proposal ratio b (Langevin
+    kernel) and cached level are the exact quantities of the specification (0, 1 .. 10^4, ~1e300, all sign combinations),
+    decided with the uniforms 0 / 1e-300 / exp(a+b)(1 -/+ 1e-6) / 1/2 / 1 - 1e-6"""
+    from cuqiverif import mhmag_real as G
+    from cuqiverif.core import MachineryError
+    ctx.model_must_hold(res["magnitude"], "MHMagnitude")
+    cases = [c for c in res["magnitude"].cases if c["kind"] == "mag"]
+    if not cases:
+        raise MachineryError("no cases emitted by MHMagnitude")
+    cases.sort(key=lambda c: json.dumps(c, sort_keys=True))
+    every = {(k, i) for k in ("RW", "CW", "PCN", "MALA") for i in ("exp", "leg")}
+    seen = {"below": set(), "above": set(), "tiny": set(), "zero_accept": set(), "near1_accept": set(), "near1_reject": set(),
+            "low_level": set(), "huge_plus": set(), "huge_minus": set()}
+    hast = {"overflow_a_underflow_b_rejected": set(), "overflow_a_underflow_b_accepted": set(), "underflow_a_overflow_b_representable": set(),
+            "huge_opposite": set()}
+    for c in cases:
+        kk = (c["cfg"]["k"], c["cfg"]["iface"])
+        a, b, r = c["a"], c["b"], c["r"]
+        if c["u"] in ("below", "above", "tiny"):
+            seen[c["u"]].add(kk)
+        if c["u"] == "zero" and c["acc"] == 1:
+            seen["zero_accept"].add(kk)
+        if c["u"] == "near1":
+            seen["near1_accept" if c["acc"] == 1 else "near1_reject"].add(kk)
+        if c["cfg"]["lev"]:
+            seen["low_level"].add(kk)
+        if a[0] > 0:
+            seen["huge_plus"].add(kk)
+        if a[0] < 0:
+            seen["huge_minus"].add(kk)
+        if kk[0] == "MALA":
+            av, bv = G.val(a), G.val(b)
+            if av > 709.8 and bv < -745.2:
+                hast["overflow_a_underflow_b_rejected" if c["acc"] == 0 else "overflow_a_underflow_b_accepted"].add(kk[1])
+            if av < -745.2 and bv > 709.8 and c["rep"]:
+                hast["underflow_a_overflow_b_representable"].add(kk[1])
+            if a[0] * b[0] < 0:
+                hast["huge_opposite"].add(kk[1])
+    for what, have in seen.items():
+        if have != every:
+            raise MachineryError("magnitude facet vacuous: %s emitted for %r only" % (what, sorted(have)))
+    for what, have in hast.items():
+        if have != {"exp", "leg"}:
+            raise MachineryError("magnitude facet vacuous: Langevin cases %s emitted for %r only" % (what, sorted(have)))
+    t0 = time.time()
+    stats, nok = {}, 0
+    for c in cases:
+        f = c["cfg"]
+        ctx.case(("mag", f["k"], f["iface"], f["lev"], G.name_of(c["a"]), G.name_of(c["b"]), c["u"]), nontrivial=True, facet="magnitude")
+        nok += bool(G.run_case(ctx, c, stats))
+        ctx.traces += 1
+    # binding self-test: the expectation of an asserted decision turned round must be reported
+    tested = 0
+    for kern, iface in sorted(every):
+        for want in (0, 1):
+            c = next((q for q in cases if (q["cfg"]["k"], q["cfg"]["iface"]) == (kern, iface) and q["acc"] == want
+                      and q["u"] in ("mid", "below", "above")), None)
+            if c is None:
+                raise MachineryError("binding self-test of the magnitude facet impossible for %s/%s" % (kern, iface))
+            bad = dict(c, acc=1 - want)
+            col = _Collector()
+            G.run_case(col, bad, {})
+            if not any(h.endswith("/decision") for h in col.hits) and not ctx.violations:
+                raise MachineryError("binding self-test: a wrong expectation of the magnitude facet was not reported (%s/%s)" % (kern, iface))
+            tested += 1
+    ctx.observe("magnitude", dict(stats, cases_emitted=len(cases), cases_replayed=len(cases), conforming=nok, binding_selftests=tested,
+                                  wall_s=round(time.time() - t0, 1)))
+    mc = next((c for c in cases if c["cfg"]["k"] == "MALA" and c["cfg"]["iface"] == "leg" and c["a"] == [0, 800] and c["b"] == [0, -10082]
+               and c["u"] == "mid"), cases[0])
+    ctx.sample({"magnitude_case": mc})
+    ctx.observe("named_deviations_magnitude", {cfg: inv for cfg, inv in MAGNITUDE_DEVIATIONS})
+    return len(cases), len(cases)
+
 
 def posinf_probe(ctx):
     """a proposal whose log-density is +inf: the Metropolis-Hastings formula gives acceptance probability 1, the property names
@@ -1259,12 +1358,14 @@ def run(ctx):
     jobs = {}
     rk = dict(extra_modules=("MHKernel.tla",), timeout=3000)
     ALLDEV = ([(c, i, "MHKernel", {"timeout": 2400}) for c, i in DEVIATIONS] + [(c, i, "CWSweep", {"timeout": 2400}) for c, i in SWEEP_DEVIATIONS] +
-              [(c, i, "MHReconf", rk) for c, i in RECONF_DEVIATIONS] + [(c, i, "MHOutside", rk) for c, i in OUTSIDE_DEVIATIONS])
+              [(c, i, "MHReconf", rk) for c, i in RECONF_DEVIATIONS] + [(c, i, "MHOutside", rk) for c, i in OUTSIDE_DEVIATIONS] +
+              [(c, i, "MHMagnitude", {"timeout": 2400}) for c, i in MAGNITUDE_DEVIATIONS])
     devpool = concurrent.futures.ThreadPoolExecutor(max_workers=8)
     with concurrent.futures.ThreadPoolExecutor(max_workers=12) as pool:
         jobs["main"] = pool.submit(_tlc_retry, ctx, "MHKernel", cfg="MHKernel.%s.cfg" % tier, workers=8, timeout=3000)
         jobs["deep"] = pool.submit(_tlc_retry, ctx, "MHKernel", cfg="MHKernel.deep.%s.cfg" % tier, workers=8, timeout=3000)
         jobs["outside"] = pool.submit(_tlc_retry, ctx, "MHOutside", cfg="MHOutside.%s.cfg" % tier, workers=2, **rk)
+        jobs["magnitude"] = pool.submit(_tlc_retry, ctx, "MHMagnitude", cfg="MHMagnitude.%s.cfg" % tier, workers=2, timeout=2400)
         jobs["reconf"] = pool.submit(_tlc_retry, ctx, "MHReconf", cfg="MHReconf.%s.cfg" % tier, workers=4, **rk)
         jobs["relayout"] = pool.submit(_tlc_retry, ctx, "MHReconf", cfg="MHReconf.layout.%s.cfg" % tier, workers=2, **rk)
         jobs["propsym"] = pool.submit(_tlc_retry, ctx, "MHReconf", cfg="MHReconf.propsym.%s.cfg" % tier, workers=2, **rk)
@@ -1283,11 +1384,13 @@ def run(ctx):
             trace_error = ex
         # the facets of MHOutside / MHReconf (short TLC runs) are replayed while the large model-checking runs are still in progress
         res = {}
-        reconf_error, rcounts, ocounts = None, None, None
+        reconf_error, rcounts, ocounts, mcounts = None, None, None, None
         try:
             if trace_error is None or isinstance(trace_error, MachineryError):
                 res["outside"] = jobs["outside"].result()
                 ocounts = outside_facet(ctx, res)
+                res["magnitude"] = jobs["magnitude"].result()
+                mcounts = magnitude_facet(ctx, res)
                 for k in ("reconf", "relayout", "propsym"):
                     res[k] = jobs[k].result()
                 rcounts = reconf_facets(ctx, res)
@@ -1405,11 +1508,12 @@ def run(ctx):
                 "assigned x outcome before x decision classes after) + seeded sample: %d replayed), MHReconf.layout.<tier>.cfg (data "
                 "layouts of points and scales; %d emitted, %d replayed) and MHReconf.propsym.<tier>.cfg (proposal objects of the "
                 "random-walk kernel: symmetry flag x centre; %d emitted, every admitted object replayed); plus the behaviours of "
-                "MHOutside.<tier>.cfg (initial point of log-density -inf, uniform exactly 0; %d emitted, %d replayed); plus recorded "
-                "traces (non-trivial = contains a judged transition)" % (
+                "MHOutside.<tier>.cfg (initial point of log-density -inf, uniform exactly 0; %d emitted, %d replayed); plus the cases of "
+                "MHMagnitude.<tier>.cfg (kernel x interface x level x log target ratio x log proposal ratio x uniform class; %d "
+                "emitted, %d replayed); plus recorded traces (non-trivial = contains a judged transition)" % (
                     limit or len(behs), alimit or len(abehs), slimit or len(sbehs), wlimit or len(wbehs),
                     rcounts["reconf"][0], rcounts["reconf"][1], rcounts["layout"][0], rcounts["layout"][1], rcounts["propsym"][0],
-                    ocounts[0], ocounts[1]))
+                    ocounts[0], ocounts[1], mcounts[0], mcounts[1]))
     # every behaviour of the bounded emission instances was replayed
     ctx.exhaustive = (limit is None or len(behs) <= limit) and (alimit is None or len(abehs) <= alimit) and (
         slimit is None or nsrc <= slimit) and (wlimit is None or len(wbehs) <= wlimit) and all(
@@ -1430,6 +1534,9 @@ def run(ctx):
                         "of CWMH) too",
                         "outside starts: the initial point is a lattice point of log-density -inf with a finite drift; the log-ratio "
                         "+inf is replayed as threshold 1 (uniform 1 - 1e-6) and with the uniform exactly 0",
+                        "extreme magnitudes: two-point table targets; the Langevin proposal is realised with scale 1, integer (or 2^499) "
+                        "misfits and a drift table, so that the log proposal ratio is exactly the specification's half square in double "
+                        "precision; the decision with the uniform exactly 0 is not asserted when exp(a + b) is not a normal double",
                         "proposal objects: the increments of the catalogue are Gaussian N(mu, I) with mu in {0, 1}; a flag declared "
                         "by the caller of a user-defined distribution is truthful",
                         "aborted transitions: the failure is an exception raised by the target's log-density / drift / forward map "
@@ -1451,6 +1558,10 @@ def replay(ctx, case):
     if kind == "rroot":
         from cuqiverif import mhreconf_real as M
         M.admission(ctx, case["root"], M.new_stats())
+        return
+    if kind == "mag":
+        from cuqiverif import mhmag_real as G
+        G.run_case(ctx, case, {})
         return
     if kind == "chain":
         from cuqiverif import mhchain_real as C
